@@ -5,10 +5,11 @@
 import MosVerif.Generated.Facts
 namespace MosVerif.C12
 
+/-- (`length4/6`, `family4/6`, the guard `r.opt.ecsEnabled && remoteAddr.IsValid()` of `packReq` and the size floor of
+    `newEDNS0` are tied by translation: `Lemmas/TranslatedC12.lean`) -/
 theorem pins :
     Facts.udpSize = 1200 ∧ Facts.ecs_mask4 = 24 ∧ Facts.ecs_mask6 = 56 ∧ Facts.ecs_truncated4 = 3 ∧
-    Facts.ecs_truncated6 = 7 ∧ Facts.ecs_length4 = 7 ∧ Facts.ecs_length6 = 11 ∧ Facts.ecs_family4 = 1 ∧
-    Facts.ecs_family6 = 2 ∧ Facts.ecs_guard = "r.opt.ecsEnabled && remoteAddr.IsValid()" ∧
+    Facts.ecs_truncated6 = 7 ∧
     Facts.ecs_unmap = "addr = addr.Unmap()" ∧ Facts.fwd_removeEdns0 = "dnsmsg.RemoveEDNS0(resp)" := by decide
 
 set_option maxRecDepth 8000 in
